@@ -34,10 +34,14 @@ FAMILIES = [
     ['-7.8', '-7.80'],
     ['-.23', '-.230'],
     ['10.', '10.0'],
+    ['10e-3', '10E-3', '10d-3', '10-3'],          # integer mantissas ending in zero
+    ['-270-2', '-270e-2', '-270D-2'],
+    ['-100e-1', '-100-1'],
 ]
 DISTINCT = ['-2.7', '-2.71', '-2.6999', '-1.0', '-1.5', '0.05', '0.051', '1.2-4', '1.2-3', '-7.8', '-0.27', '-27.']
 # numerically different densities that agree to 6, 7, 8 … significant digits: they must not share a composition
-NEAR = [('-0.7123456', '-0.7123461'), ('6.40875-2', '6.408751-2'), ('-2.7', '-2.7000001'), ('-2.70000001', '-2.70000002'),
+NEAR = [('10e-3', '1e-3'), ('-270-2', '-27-2'), ('-100e-1', '-1e-1'), ('20e0', '2e0'),
+        ('-0.7123456', '-0.7123461'), ('6.40875-2', '6.408751-2'), ('-2.7', '-2.7000001'), ('-2.70000001', '-2.70000002'),
         ('1.23456789', '1.23456788'), ('-1.0', '-1.000000001'), ('0.05', '0.0500000001'), ('-7.8e0', '-7.80000004')]
 
 
